@@ -20,6 +20,7 @@ def main() -> int:
     ap.add_argument("--tier", default=os.environ.get("VERIF_TIER", "quick"), choices=["quick", "thorough"])
     ap.add_argument("--replay")
     ap.add_argument("--no-build", action="store_true")
+    ap.add_argument("--translate", action="store_true", help="only regenerate the Lean facts this property extracts from /repo's source")
     a = ap.parse_args()
     seed = int(os.environ.get("VERIF_SEED", "0"))
     pid = a.pid.upper()
@@ -37,6 +38,8 @@ def main() -> int:
             return 0
         if hasattr(mod, "pre_build"):
             mod.pre_build(ctx)           # translator: regenerate Lean facts from /repo's source
+        if a.translate:
+            return 0
         props = list(mod.PROPS)
         build_ok, log = (True, "") if a.no_build else fw.lake_build(props + list(getattr(mod, "EXTRA_BUILD", [])))
         broken_mods = []
